@@ -16,6 +16,9 @@ structure VCtx where
   es : List Int
   ss : List Int
   pv : Option Int
+  es2 : List Int
+  ss2 : List Int
+  pv2 : Option Int
 
 abbrev VView := MdsView Int LayoutI Int
 
@@ -70,6 +73,7 @@ def obsV (c : VCtx) (T : ITy) (pat : Pattern) (v : VView) : String :=
 structure VState where
   pool : List (Option VView)
   pool2 : List (Option VView)
+  pool3 : List (Option VView)
   mem : List (Int × Int)          -- cells written: (address, value), latest first
   out : List String
 
@@ -114,6 +118,19 @@ def vstep (c : VCtx) (s : VState) (cmd : String) : M VState := do
     match m with
     | some m => pure (put (nn 1) (some ⟨c.handle (n 2), m, if c.hasId then n 3 else -1⟩))
     | none => pure (emit "no-ctor")
+  | "cm2" =>
+    let c2 : VCtx := { c with es := c.es2, ss := c.ss2, pv := c.pv2 }
+    let m ← mkMapI c2 c2.es true c2.pv
+    match m with
+    | some m => pure (put (nn 1) (some ⟨c.handle (n 2), m, if c.hasId then n 3 else -1⟩))
+    | none => pure (emit "no-ctor")
+  | "c3" =>
+    match getSlot s.pool (nn 2) with
+    | some v => pure { s with pool3 := Pool.put s.pool3 (nn 1) (some ⟨v.h, v.m.cast c.T, v.a⟩) }
+    | none => pure { s with pool3 := Pool.put s.pool3 (nn 1) none }
+  | "o3" =>
+    let twin : Pattern := (List.range c.pat.length).map (fun k => match c.pat.getD k none with | some v => some v | none => some (k + 2))
+    pure (emit (match getSlot s.pool3 (nn 1) with | some v => obsV c c.T twin v | none => "none"))
   | "cp" => pure { s with pool := Pool.step s.pool (.copy (nn 1) (nn 2)) }
   | "mv" => pure { s with pool := Pool.step s.pool (.move (nn 1) (nn 2)) }
   | "as" =>
@@ -168,9 +185,12 @@ def viewLine (kind ty : String) (rest : List String) : String :=
     let c : VCtx := { T := T, T2 := .i64, kind := kind, pat := pat, sp := parseOptNat ((getKey rest "sp").getD "D"),
                       acc := (getKey rest "k").getD "def",
                       es := wrapL T (parseList ((getKey rest "ext").getD "-")), ss := wrapL T (parseList ((getKey rest "str").getD "-")),
-                      pv := (getKey rest "pv").bind String.toInt? }
+                      pv := (getKey rest "pv").bind String.toInt?,
+                      es2 := wrapL T (parseList ((getKey rest "ext2").getD ((getKey rest "ext").getD "-"))),
+                      ss2 := wrapL T (parseList ((getKey rest "str2").getD ((getKey rest "str").getD "-"))),
+                      pv2 := (getKey rest "pv2").bind String.toInt? }
     let cmds := ((getKey rest "seq").getD "").splitOn "/"
-    let init : VState := { pool := List.replicate 4 none, pool2 := List.replicate 2 none, mem := [], out := [] }
+    let init : VState := { pool := List.replicate 4 none, pool2 := List.replicate 2 none, pool3 := List.replicate 2 none, mem := [], out := [] }
     match cmds.foldlM (vstep c) init with
     | .ok s => if s.out.isEmpty then "ok" else " | ".intercalate s.out
     | .error e => ubStr e
